@@ -46,6 +46,10 @@ type Case struct {
 	Type  pgen.TypeDesc `json:"type"`
 	Value pgen.Recipe   `json:"value"`
 	ByPtr bool          `json:"by_ptr,omitempty"` // Marshal(&v) instead of Marshal(v)
+	// FromBytes, when set, replaces Value: v is what Unmarshal(FromBytes)
+	// yields for the type (native fuzz target; if those bytes do not decode
+	// the case is vacuous - decoding arbitrary bytes is C07's business).
+	FromBytes []byte `json:"from_bytes,omitempty"`
 }
 
 func fail(class, oracle, observed, expected string) *evid.Failure {
@@ -63,6 +67,14 @@ func checkCase(c Case, tol pgen.Tol) (f *evid.Failure, tolerated map[string]int)
 		want = pgen.BuildT(&c.Type, rt, &c.Value)
 	}); p {
 		return fail("harness", "harness: build value", msg, "no panic"), nil
+	}
+	if c.FromBytes != nil {
+		p := reflect.New(rt)
+		var derr error
+		if pk, _, _ := pgen.Call(func() { derr = proto.Unmarshal(append([]byte(nil), c.FromBytes...), p.Interface()) }); pk || derr != nil {
+			return nil, nil
+		}
+		want = p.Elem()
 	}
 	arg := want.Interface()
 	if c.ByPtr {
